@@ -182,16 +182,16 @@ func (c *Ctx) Bin(op string, a, b *Term) *Term {
 		// operands whose possibly-set bits are disjoint: the sum is the bitwise or (no carries)
 		za, _ := c.Known(a)
 		zb, _ := c.Known(b)
-		if (^za&Mask(w))&(^zb&Mask(w)) == 0 && (a.IsConst() || b.IsConst()) && za != 0 && zb != 0 {
+		if (^za&Mask(w))&(^zb&Mask(w)) == 0 && za != 0 && zb != 0 {
 			return c.Bin("bvor", a, b)
 		}
 	}
-	if op == "bvand" && b.IsConst() && a.Op == "bvor" && a.Args[1].IsConst() {
-		// (x | c1) & c2 = (x & c2) | (c1 & c2)
-		return c.Bin("bvor", c.Bin("bvand", a.Args[0], b), c.Const(w, a.Args[1].Val&b.Val))
+	if op == "bvand" && b.IsConst() && a.Op == "bvor" {
+		// (x | y) & c = (x & c) | (y & c)
+		return c.Bin("bvor", c.Bin("bvand", a.Args[0], b), c.Bin("bvand", a.Args[1], b))
 	}
-	if op == "bvand" && a.IsConst() && b.Op == "bvor" && b.Args[1].IsConst() {
-		return c.Bin("bvor", c.Bin("bvand", b.Args[0], a), c.Const(w, b.Args[1].Val&a.Val))
+	if op == "bvand" && a.IsConst() && b.Op == "bvor" {
+		return c.Bin("bvor", c.Bin("bvand", b.Args[0], a), c.Bin("bvand", b.Args[1], a))
 	}
 	switch op {
 	case "bvadd":
@@ -251,6 +251,24 @@ func (c *Ctx) Bin(op string, a, b *Term) *Term {
 	case "bvshl", "bvlshr", "bvashr":
 		if b.IsConst() && b.Val == 0 {
 			return a
+		}
+		if op != "bvashr" && b.IsConst() && a.Op == "bvor" {
+			// shifts distribute over or
+			return c.Bin("bvor", c.Bin(op, a.Args[0], b), c.Bin(op, a.Args[1], b))
+		}
+		if op == "bvlshr" && b.IsConst() && a.Op == "bvshl" && a.Args[1].IsConst() {
+			// (x << s) >> k: when the top s bits of x are known zero this is x >> (k-s) or x << (s-k)
+			s0, k := a.Args[1].Val, b.Val
+			zx, _ := c.Known(a.Args[0])
+			if s0 < uint64(w) && leadingKnownZeros(zx, w) >= int(s0) {
+				if k >= s0 {
+					return c.Bin("bvlshr", a.Args[0], c.Const(w, k-s0))
+				}
+				return c.Bin("bvshl", a.Args[0], c.Const(w, s0-k))
+			}
+		}
+		if op == "bvshl" && b.IsConst() && a.Op == "bvshl" && a.Args[1].IsConst() && a.Args[1].Val+b.Val < uint64(w) {
+			return c.Bin("bvshl", a.Args[0], c.Const(w, a.Args[1].Val+b.Val))
 		}
 		if a.IsConst() && a.Val == 0 {
 			return a
